@@ -360,6 +360,10 @@ def make_faults():
     field_fault("callback-in-field", const(["cb", [["prim", "u8"]], ["unit"], False]))
     field_fault("callback-in-out-field", const(["cb", [], ["prim", "u8"], False]), out=True)
     field_fault("ref-to-struct-in-field", with_struct(lambda n: ["ref", "static", False, n, []]))
+    field_fault("std-str-in-out-field", const(["str", "static", "utf8", "std"]), out=True)
+    field_fault("std-slice-in-out-field", const(["slice", "static", False, "u8", "std"]), out=True)
+    field_fault("diplomat-option-of-std-str-in-field", const(raw("DiplomatOption<&'static str>")))
+    field_fault("diplomat-option-of-std-slice-in-out-field", const(raw("DiplomatOption<&'static [u8]>")), out=True)
     field_fault("std-option-of-primitive-in-out-field", const(["opt", ["prim", "u16"], "std"]), out=True)
     field_fault("opaque-by-value-in-out-field", with_opaque(lambda n: ["struct", n, []]), out=True)
     field_fault("ref-to-struct-in-out-field", with_struct(lambda n: ["ref", "static", False, n, []]), out=True)
